@@ -249,6 +249,33 @@ impl Prop for C10 {
                 Some(case(text, total, &l, "add-sub-chain"))
             },
         ));
+        f.push(Family::new(
+            "parenthesised-sums",
+            Mode::Full,
+            "'A op1 (B op2 C)' and '(A op1 B) op2 C' for op1, op2 in [+, -] over durations A in [3 hours, 2 weeks, 1 day], B in [1 hour, 3 days, 90 minutes], C in [30 minutes, 12 hours, 45 seconds], in every language: parentheses group (A - (B + C) is A - B - C, A - (B - C) is A - B + C)",
+            move |ch| {
+                let l = ch.pick(&crate::spec::spec().languages).clone();
+                let w = |c: i64, u: Unit, l: &str| {
+                    let (sg, pl) = u.words(l);
+                    (format!("{} {}", c, if c == 1 { sg } else { pl }), dur::amount(c, u))
+                };
+                let (at, av) = { let (c, u) = *ch.pick(&[(3i64, Unit::Hour), (2, Unit::Week), (1, Unit::Day)]); w(c, u, &l) };
+                let (bt, bv) = { let (c, u) = *ch.pick(&[(1i64, Unit::Hour), (3, Unit::Day), (90, Unit::Minute)]); w(c, u, &l) };
+                let (ct, cv) = { let (c, u) = *ch.pick(&[(30i64, Unit::Minute), (12, Unit::Hour), (45, Unit::Second)]); w(c, u, &l) };
+                let op1 = *ch.pick(&['+', '-']);
+                let op2 = *ch.pick(&['+', '-']);
+                let f = |x: i64, op: char, y: i64| if op == '+' { x + y } else { x - y };
+                let (text, want) = if ch.flag() {
+                    (format!("{} {} ({} {} {})", at, op1, bt, op2, ct), f(av, op1, f(bv, op2, cv)))
+                } else {
+                    (format!("({} {} {}) {} {}", at, op1, bt, op2, ct), f(f(av, op1, bv), op2, cv))
+                };
+                if want <= 0 || f(bv, op2, cv) <= 0 || f(av, op1, bv) <= 0 {
+                    return None; // negative intermediate or final durations are a topic of their own
+                }
+                Some(case(text, want, &l, "parenthesised"))
+            },
+        ));
         // as U ---------------------------------------------------------------------------
         {
             let conns: Vec<&'static str> = vec!["as", "in", "to", "into"];
